@@ -55,6 +55,20 @@ CHECKS["C16"] = dict(
     technique="Lean 4 theorems (invariant by induction over op sequences, refinement to plain trees) + translator for trie constants + op-sequence correspondence",
 )
 
+CHECKS["C10"] = dict(
+    category="proof",
+    text="A reference CFG recognizer (self-certifying chart fixpoint) is proved correct for ALL grammars and strings: recognize g A s = some b -> "
+    "(b <-> Der g s A 0 |s|) and Der <-> existence of a valid closed derivation tree with that yield (recognize_inLang); the tree checker is "
+    "proved to certify membership (checkTree_sound). The real Earley parser (and ISLaSolver.parse with requested nonterminals) is tied to it per "
+    "input: accept <=> recognizer accepts, nothing but a tree or SyntaxError, every yielded tree certified - exhaustively for all strings up to "
+    "a length bound over each generated grammar's terminal alphabet, plus derived/mutated longer strings.",
+    design_ref="DESIGN.md section 7 C10",
+    note="The Earley algorithm itself (predict/scan/complete, forest extraction) is NOT modelled: its soundness/completeness is validated per "
+    "explored input against the proved reference (translation-validation style), not proved. Grammars with cyclic unit/nullable derivations "
+    "are excluded as in the property. A recognizer answer `none` (fixpoint not certified) would be counted as oracle-unknown (never observed).",
+    technique="Lean 4 theorems about a reference recognizer/tree checker + exhaustive-up-to-length differential validation of the real parser",
+)
+
 NOT_APPLICABLE = {
     "C22": "reproducibility across fresh processes depends on hash randomisation, Z3 seeds/timeouts and wall-clock time; a functional Lean model would prove determinism vacuously and no executable model can exhibit the failure (DESIGN.md section 8)",
 }
